@@ -159,6 +159,7 @@ class Kernel:
         self.gates: dict[tuple[int, int], Any] = {}
         self.get_scopes: dict[int, Any] = {}            # label of a suspended async lookup -> its cancel scope
         self.ctxtd_fn: Any = None
+        self.deferred: dict[int, tuple[Any, dict[str, Any]]] = {}   # lookups whose coroutine exists but has not been awaited
         self.calls: dict[tuple[int, int], int] = {}
         self.tdlog: list[str] = []
         self.mid: dict[int, tuple[int, Any]] = {}       # context -> (callback during which its scope is cancelled, scope)
@@ -785,6 +786,12 @@ class Worker:
                 await checkpoint()
             gc.collect()
             return res
+        if op == "resume":
+            d = kern.deferred.pop(cmd["lid"], None)
+            if d is None:
+                return ["badOp"]
+            coro, g = d
+            return await self.simple({**g, "defer": False, "coro": coro, "i": cmd["i"], "t": cmd["t"]})
         if op == "current":
             return [kern.cur_name(current_context)]
         if op == "spawn":
@@ -831,7 +838,13 @@ class Worker:
             if op == "getnw":
                 return kern.guard(lambda: target.get_resource_nowait(TYPES[cmd["ty"]], cmd["name"], optional=cmd["opt"]), val=True,
                                   want=(TYPES[cmd["ty"]], cmd["name"]))
+            if op == "get" and cmd.get("defer"):
+                # only the coroutine object is made now; it is awaited when the matching `resume` arrives
+                kern.deferred[cmd["lid"]] = (ctx.get_resource(TYPES[cmd["ty"]], cmd["name"], optional=cmd["opt"]), cmd)
+                return ["ok"]
             if op == "get":
+                coro_made = cmd.pop("coro", None)
+
                 # run in a helper task so that a suspended lookup does not block the worker
                 async def helper() -> None:
                     lid = cmd.get("lid", cmd["t"])
@@ -840,7 +853,8 @@ class Worker:
                     with anyio.CancelScope() as sc:
                         kern.get_scopes[lid] = sc
                         try:
-                            v = await target.get_resource(TYPES[cmd["ty"]], cmd["name"], optional=cmd["opt"])
+                            v = await (coro_made if coro_made is not None else
+                                       target.get_resource(TYPES[cmd["ty"]], cmd["name"], optional=cmd["opt"]))
                             r = [val_name(v)]
                         except BaseException as e:  # noqa: BLE001
                             if type(e).__name__ in ("Cancelled", "CancelledError"):
